@@ -5,7 +5,10 @@ Record fstep := { fs_arg : string; fs_ret : obs; fs_err : obs; fs_cfg : value;
                   fs_ref : obs }.     (* fs_ref: the reference fold after this argument: OV tree or its first error *)
 
 Inductive case :=
-| CFlags (o : nopts) (autoBool : bool) (init : value) (steps : list fstep).
+| CFlags (o : nopts) (autoBool : bool) (init : value) (steps : list fstep)
+| CSticky (first : string) (later : list string).
+    (* the collector behind the flags, used directly: the text of the first failure, and what every
+       later Add returned / Error() said afterwards *)
 
 (* a plain (non-ucfg) error carries its message in the path field: the model does not
    predict message texts *)
@@ -31,6 +34,7 @@ Fixpoint steps_agree (o : nopts) (autoBool : bool) (st : fstate) (ss : list fste
 Definition model_agrees (c : case) : bool :=
   match c with
   | CFlags o ab init ss => steps_agree o ab {| f_cfg := init; f_err := OV VNil |} ss
+  | CSticky _ _ => true
   end.
 
 (* the property on the implementation's observations: while the reference fold has not
@@ -60,6 +64,7 @@ Definition prop_holds (c : case) : bool :=
   match c with
   | CFlags o ab init ss =>
     follows_ref init None ss && forallb (fun s => match fs_ret s with OPanic => false | _ => true end) ss
+  | CSticky first later => forallb (String.eqb first) later
   end.
 
 Definition signature (c : case) : N := 0%N.
